@@ -343,7 +343,7 @@ class TaggedUnionConverter(UnionConverter):
                     raise TypeError(f"Tag value '{val}' matches multiple types")
                 self.tag_map[val] = i
             except AttributeError:
-                raise AttributeError(f"Tag '{self.tag}' not found inside type '{ty}'")
+                raise TypeError(f"Tag '{self.tag}' not found inside type '{ty}'") from None
 
     def tag_expected(self) -> str:
         """Return a string list of the expected/supported tags"""
